@@ -106,6 +106,8 @@ pub struct Traffic {
     pub amb_reliable: bool,
     pub extra_flushes: u64,
     pub probes_after_ns: Option<u64>,
+    /// exact packets to submit at the first application turn (chan, mode, len)
+    pub script: Vec<(u8, Mode, usize)>,
 }
 
 #[derive(Clone, Debug)]
@@ -709,6 +711,15 @@ impl<'s> Sim<'s> {
     fn app_turn(&mut self, i: usize) -> bool {
         let tr = &self.scn.traffic[i];
         let t = self.now_ns;
+        if !tr.script.is_empty() && self.sides[i].sent_packets == 0 {
+            for k in 0..tr.script.len() {
+                let (chan, mode, len) = self.scn.traffic[i].script[k];
+                if !self.submit_one(i, chan, mode, len, len < 4) {
+                    return false;
+                }
+            }
+            return true;
+        }
         if t >= tr.start_ns && t < tr.stop_ns && self.sides[i].sent_packets < tr.total && self.app_rng[i].chance(tr.per_step_p) {
             let n = self.app_rng[i].range(tr.burst.0, tr.burst.1) as usize;
             for _ in 0..n {
